@@ -617,7 +617,9 @@ func verifH_E2E() {
 	//  4 graceful shutdown while the RPC is in flight: direction x streaming shape x when x handler outcome
 	//  5 binary metadata: a "-bin" value that is valid UTF-8 beyond ASCII / not valid UTF-8, as request
 	//    metadata, response header or trailer x direction x unary / bidi
-	group := verifChoice("group", 6)
+	//  6 a rejected RPC first: unknown service / unknown method / malformed name / empty name, as a unary or
+	//    a bidi call, then the RPC proper on the same tunnel x direction
+	group := verifChoice("group", 7)
 	if verifParam("groups")&(1<<group) == 0 {
 		return
 	}
@@ -629,7 +631,12 @@ func verifH_E2E() {
 		}
 		return false
 	}
-	reverse := inG(1, 2, 3, 4, 5) && verifBool("reverseTunnel")
+	reverse := inG(1, 2, 3, 4, 5, 6) && verifBool("reverseTunnel")
+	badKind, badBidi := -1, false
+	if inG(6) {
+		badKind = verifChoice("rejectedMethod", 4)
+		badBidi = verifBool("rejectedCallIsBidi")
+	}
 	cliNoFC := (inG(1) || (inG(2) && verifParam("ilv") != 0)) && verifBool("rpcClientEndDisablesFlowControl")
 	srvNoFC := inG(1) && verifBool("rpcServerEndDisablesFlowControl")
 	// the negotiate header does not get through (either way): each end then faces a peer that does not
@@ -807,6 +814,30 @@ func verifH_E2E() {
 	rev1 := !cliNoFC && !srvNoFC && !stripped
 	c := tch.(*tunnelChannel)
 	verifAssert((c.useRevision == tunnelpb.ProtocolRevision_REVISION_ONE) == rev1, "C11.e2e-flow-control-exactly-when-neither-end-disabled-it")
+
+	// ---- (group 6) an RPC that the server rejects comes first: it fails alone, with the documented status
+	if badKind >= 0 {
+		verifCover("e2e-rejected-first")
+		bad := []string{"/nosuch/u", "/a/nosuch", "nomethodpart", ""}[badKind]
+		want := []codes.Code{codes.Unimplemented, codes.Unimplemented, codes.InvalidArgument, codes.InvalidArgument}[badKind]
+		var berr error
+		if badBidi {
+			bst, err := ch.NewStream(context.Background(), &grpc.StreamDesc{ClientStreams: true, ServerStreams: true}, bad)
+			verifAssert(err == nil, "C08.e2e-rejected-rpc-starts")
+			if err == nil {
+				_ = bst.SendMsg(&wrapperspb.BytesValue{Value: []byte{1}})
+				_ = bst.CloseSend()
+				berr = bst.RecvMsg(&wrapperspb.BytesValue{})
+			}
+		} else {
+			berr = ch.Invoke(context.Background(), bad, &wrapperspb.BytesValue{Value: []byte{1}}, &wrapperspb.BytesValue{})
+		}
+		verifAssert(status.Code(berr) == want, "C03+C09.e2e-rejected-rpc-fails-with-the-documented-status")
+		verifDrain()
+		verifAssert(len(app.calls) == 0, "C08.e2e-rejected-rpc-reaches-no-handler")
+		verifAssert(c.Err() == nil && vChanOpenRO(c.Done()), "C03.e2e-a-rejected-rpc-does-not-end-the-tunnel")
+		verifAssert(verifLiveGoroutines() == g0, "C14.e2e-no-goroutine-kept-for-the-rejected-rpc")
+	}
 
 	// ---- the RPC
 	ctx := context.Background()
